@@ -830,7 +830,7 @@ class EventGenerator:
         Yields:
             An iterator of sax events.
         """
-        if collections.is_array(value):
+        if var.list_element and collections.is_array(value):
             for val in value:
                 yield from self.convert_choice(val, var, namespace)
         else:
